@@ -615,3 +615,121 @@ func RunMsgTimeoutNegotiation(v int) vx.Out {
 	}
 	return vx.Out{Obs: fmt.Sprintf("msg_timeout=%d ok=%v", v, ok), Viol: viol}
 }
+
+// ---------------------------------------------------------------- channels coming and going under the scan loop
+
+// ChurnSpec: the set of channels changes between two refreshes of the queue-scan loop's
+// channel list; work that then falls due on the NEW channel must still be found in time.
+type ChurnSpec struct {
+	Replace string `json:"replace"` // other | same | ephemeral | add | topic
+	Pending string `json:"pending"` // timeout | dpub | req
+	Offset  int    `json:"offset"`  // ms after start-up + 1200 at which the change happens
+	Others  int    `json:"others"`  // further channels that stay (each on its own topic)
+}
+
+func RunScanChurn(spec ChurnSpec) vx.Out {
+	var viol []vx.Found
+	bad := func(clause, f string, a ...interface{}) {
+		viol = append(viol, vx.Found{Sig: fmt.Sprintf("%s :: churn %s/%s/+%d/others%d", clause, spec.Replace, spec.Pending, spec.Offset, spec.Others), Detail: fmt.Sprintf(f, a...)})
+	}
+	w, err := NewWorld(FreshDir(), WOpts{MemQ: 10})
+	if err != nil {
+		return vx.Out{Obs: "world: " + err.Error(), Viol: []vx.Found{{Sig: "INFRA world :: churn", Detail: err.Error()}}}
+	}
+	defer w.Release()
+	sub := func(name, topic, ch string) *WConn {
+		c := w.Dial(name)
+		c.Identify(map[string]interface{}{"client_id": name, "output_buffer_size": -1})
+		c.Cmd("SUB "+topic+" "+ch, nil)
+		c.Next()
+		c.Cmd("RDY 2", nil)
+		return c
+	}
+	oldCh, newCh, topic2 := "c", "d", "t"
+	switch spec.Replace {
+	case "same":
+		newCh = "c"
+	case "ephemeral":
+		oldCh, newCh = "x#ephemeral", "y#ephemeral"
+	case "topic":
+		topic2 = "t2" // the old topic goes, a new one (with a channel of the same name) comes
+		newCh = "c"
+	}
+	a := sub("a", "t", oldCh)
+	for i := 0; i < spec.Others; i++ {
+		sub(fmt.Sprintf("o%d", i), fmt.Sprintf("other%d", i), "k")
+	}
+	w.Sleep(time.Duration(1200+spec.Offset) * time.Millisecond)
+	// ---- the change, all at one instant
+	switch spec.Replace {
+	case "other", "same":
+		if code, _ := w.Do("POST", "/channel/delete?topic=t&channel="+oldCh, nil); code != 200 {
+			bad("C08 C10 channel delete failed", "%d", code)
+		}
+	case "ephemeral":
+		a.Close()
+		w.Quiesce()
+	case "topic":
+		if code, _ := w.Do("POST", "/topic/delete?topic=t", nil); code != 200 {
+			bad("C08 C10 topic delete failed", "%d", code)
+		}
+	case "add":
+	}
+	w.Quiesce()
+	b := sub("b", topic2, newCh)
+	w.Quiesce()
+	p := w.Dial("p")
+	t0 := vrt.Now()
+	var L int64
+	which := 1
+	switch spec.Pending {
+	case "dpub":
+		p.Cmd("DPUB "+topic2+" 300", []byte("m"))
+		p.Next()
+		L, which = 300, 0
+	default:
+		p.Cmd("PUB "+topic2, []byte("m"))
+		p.Next()
+		L = 1000
+	}
+	w.Quiesce()
+	var deliv []int64
+	id := ""
+	note := func() {
+		for _, f := range b.Take() {
+			if f.Type == frameTypeMessage && f.Body == "m" {
+				id = f.ID
+				deliv = append(deliv, (f.At-t0)/1e6)
+			}
+		}
+	}
+	note()
+	if spec.Pending == "req" {
+		if id == "" {
+			bad("C01 C03 message not delivered to the ready consumer of the new channel", "nothing arrived on %s/%s", topic2, newCh)
+			return vx.Out{Obs: "no first delivery", Viol: viol}
+		}
+		b.Cmd("REQ "+id+" 300", nil)
+		w.Quiesce()
+		L = 300
+	}
+	for vrt.Now() < t0+int64(4*time.Second) {
+		w.Sleep(100 * time.Millisecond)
+		note()
+	}
+	obs := fmt.Sprintf("deliveries at %v", deliv)
+	if len(deliv) <= which {
+		bad("C04 message not redelivered in bounded time", "channel %s/%s came into being at the instant %s went; its message (%s) was delivered at %v ms, delivery #%d was due at %d..%d ms", topic2, newCh, oldCh, spec.Pending, deliv, which+1, L, L+1000)
+		return vx.Out{Obs: obs, Viol: viol}
+	}
+	at := deliv[which]
+	if at < L {
+		bad("C04 delivered early", "delivery #%d at +%d ms, not legal before +%d ms (%v)", which+1, at, L, deliv)
+	}
+	// the new channel enters the scan list at the next refresh (<= 500 ms) and is scanned at
+	// the first tick after that (<= 500 ms)
+	if at > L+1000 {
+		bad("C04 delivered late", "delivery #%d at +%d ms, legal from +%d ms and due within a refresh interval plus a scan interval, i.e. by +%d ms (%v)", which+1, at, L, L+1000, deliv)
+	}
+	return vx.Out{Obs: obs, Viol: viol}
+}
